@@ -497,6 +497,22 @@ func c05TokensEqual(c *core.Ctx) {
 	}
 	c.Analysed(fn.String())
 	g := fn.Graph()
+	// the function is a plain delegation to the standard library's comparison (lengths, then every element)
+	{
+		nRet, nStd := 0, 0
+		for _, b := range g.Blocks {
+			if r := an.ReturnOf(b); r != nil && len(r.Results) == 1 {
+				nRet++
+				if cv := fn.Canon(r.Results[0]); cv == "slices.Equal(p0, p1)" || cv == "slices.Equal(p1, p0)" {
+					nStd++
+				}
+			}
+		}
+		if nRet > 0 && nRet == nStd {
+			c.HoldTrivial("R5", "func=tokensEqual", fn.Pos(), "tokensEqual returns slices.Equal of its two arguments (standard library: lengths first, then every element)")
+			return
+		}
+	}
 	// every `return true` must be unreachable when the lengths differ
 	var trues []an.Loc
 	for _, b := range g.Blocks {
